@@ -750,7 +750,7 @@ def _same_pattern_shape(a, b):
     return False
 
 
-def path_conditions(ix, node, upto=None):
+def path_conditions(ix, node, upto=None, arms=False):
     """conditions known to hold when node executes, as [(expression, polarity)]: enclosing if branches and the negations of
     earlier diverging guards (`if c { continue }`, `if c { return .. }`) in the enclosing blocks, up to the node `upto` (default: function)."""
     out = []
@@ -790,6 +790,11 @@ def path_conditions(ix, node, upto=None):
             # the guard of the arm taken holds; the guards of earlier arms with the same pattern do not
             for i_, arm in enumerate(p["arms"]):
                 if arm["body"] is child or contains(arm["body"], node):
+                    if arms and p.get("src") == "match":
+                        out.append(({"k": "armpat", "scrut": p["scrut"], "pat": arm["pat"]}, True))
+                        for prev in p["arms"][:i_]:
+                            if "guard" not in prev:
+                                out.append(({"k": "armpat", "scrut": p["scrut"], "pat": prev["pat"]}, False))
                     if "guard" in arm:
                         add(arm["guard"], True)
                     for prev in p["arms"][:i_]:
@@ -1047,8 +1052,7 @@ def result_table(ix, e, depth=0, unwrap=("Option::Some", "Result::Ok")):
     k = e.get("k")
     if k == "local" and e["id"] in _tree.LET_INITS:
         init = _tree.LET_INITS[e["id"]]
-        outer = path_conditions(ix, init) if id(init) in ix.pre else []
-        return [(outer + cs, x) for cs, x in result_table(ix, init, depth + 1, unwrap)]
+        return result_table(ix, init, depth + 1, unwrap)
     if k == "ctor" and callee(e).endswith(tuple(unwrap)) and len(e.get("args", [])) == 1:
         return result_table(ix, e["args"][0], depth + 1, unwrap)
     if k == "if" and "else" in e:
@@ -1072,6 +1076,8 @@ def result_table(ix, e, depth=0, unwrap=("Option::Some", "Result::Ok")):
             for prev in e["arms"][:i_]:
                 if "guard" in prev and _same_pattern_shape(prev["pat"], arm["pat"]):
                     conds.append((resolve(prev["guard"]), False))
+                elif "guard" not in prev:
+                    conds.append(({"k": "armpat", "scrut": e["scrut"], "pat": prev["pat"]}, False))   # an earlier arm did not match
             out += [(conds + cs, x) for cs, x in result_table(ix, arm["body"], depth + 1, unwrap)]
         return out
     if k == "blockexpr":
@@ -1112,3 +1118,70 @@ def deep_chain(ix, defs, e, depth=0):
         b2, ms2 = deep_chain(ix, defs, b0, depth + 1)
         return b2, ms2 + ms
     return b, ms
+
+
+def enum_value_conditions(ix, scrut, pat):
+    """the alternative condition lists under which the value of `scrut` (a local assigned a field-less enum variant by if/match chains,
+    possibly through an inlined constructor function) matches the pattern `pat`: [[(cond, polarity)..]..], or None when its value is not of that kind"""
+    alts = pat_alts(pat)
+    want = set()
+    for a in alts:
+        while a.get("k") in ("pref", "pderef"):
+            a = a["pat"]
+        if a.get("k") in ("pvariant", "pconst") and not a.get("subs"):
+            want.add(a["path"])
+        elif a.get("k") in ("pwild", "pbind"):
+            want.add("*")
+        else:
+            return None
+    table = result_table(ix, scrut, unwrap=())
+    out = []
+    for cs, leaf in table:
+        leaf = peel(leaf)
+        if not (leaf.get("k") == "def" and str(leaf.get("dk", "")).startswith("ctor")):
+            return None
+        if "*" in want or leaf["path"] in want:
+            out.append(cs)
+    return out
+
+
+def armpat_formula(ix, cond, extract, depth=0):
+    """boolean formula (boolpred form) for "the scrutinee matches the pattern": bool literals / tuples of them / wildcards directly,
+    field-less enum variants through the conditions that select the scrutinee's value (enum_value_conditions).
+    `extract(expr)` turns a bool expression into a formula and raises on anything it does not understand."""
+    from . import boolpred as bp
+    scrut, pat = cond["scrut"], cond["pat"]
+    while pat.get("k") in ("pref", "pderef"):
+        pat = pat["pat"]
+    k = pat.get("k")
+    if depth > 6:
+        raise bp.Opaque(scrut, "nested patterns")
+    if k in ("pwild",) or (k == "pbind" and "sub" not in pat):
+        return ("const", True)
+    if k == "por":
+        out = ("const", False)
+        for a in pat["alts"]:
+            out = ("or", out, armpat_formula(ix, {"scrut": scrut, "pat": a}, extract, depth + 1))
+        return out
+    if k == "plit" and isinstance(pat.get("v"), bool):
+        f = extract(scrut)
+        return f if pat["v"] else ("not", f)
+    if k == "ptuple":
+        t = tail_value(resolve(scrut))
+        if t.get("k") != "tuple" or len(t["es"]) != len(pat["subs"]) or pat.get("rest"):
+            raise bp.Opaque(scrut, "tuple pattern on a non-tuple")
+        out = ("const", True)
+        for sp_, e_ in zip(pat["subs"], t["es"]):
+            out = ("and", out, armpat_formula(ix, {"scrut": e_, "pat": sp_}, extract, depth + 1))
+        return out
+    evc = enum_value_conditions(ix, scrut, pat)
+    if evc is None:
+        raise bp.Opaque(scrut, "match on a value that is not a condition-selected constant")
+    out = ("const", False)
+    for cs_ in evc:
+        y = ("const", True)
+        for c2, p2 in cs_:
+            z = armpat_formula(ix, c2, extract, depth + 1) if c2.get("k") == "armpat" else extract(c2)
+            y = ("and", y, z if p2 else ("not", z))
+        out = ("or", out, y)
+    return out
